@@ -10,6 +10,7 @@ import OhkamiModel.Drv.C11
 import OhkamiModel.Drv.C12
 import OhkamiModel.Drv.C13
 import OhkamiModel.Drv.C14
+import OhkamiModel.Drv.C15
 import OhkamiModel.Drv.C16
 import OhkamiModel.Drv.C17
 import OhkamiModel.Drv.C18
@@ -41,6 +42,7 @@ def main (args : List String) : IO UInt32 := do
   | ["C12"] => loop stdin DrvC12.runCase; return 0
   | ["C13"] => loop stdin DrvC13.runCase; return 0
   | ["C14"] => loop stdin DrvC14.runCase; return 0
+  | ["C15"] => loop stdin DrvC15.runCase; return 0
   | ["C16"] => loop stdin DrvC16.runCase; return 0
   | ["C17"] => loop stdin DrvC17.runCase; return 0
   | ["C18"] => loop stdin DrvC18.runCase; return 0
